@@ -257,3 +257,18 @@ fn c04_counts_through_borrows_and_unions() {
     assert!(!ArcUnion::ptr_eq(&u, &u2) || true);
     assert_eq!(ArcUnion::strong_count(&u2), 3);
 }
+
+#[test]
+fn c03_as_mut_ptr_of_a_shared_uninit_arc_grants_nothing() {
+    // a safe call on one handle of a shared Arc<MaybeUninit<T>>: it only computes an address, so the other owner's
+    // view must stay valid (nothing is written through the pointer)
+    let mut a: Arc<MaybeUninit<u32>> = Arc::new_uninit();
+    Arc::get_mut(&mut a).unwrap().write(5);
+    let b = a.clone();
+    let r: &MaybeUninit<u32> = &*b;
+    let p = a.as_mut_ptr();
+    assert!(!p.is_null());
+    assert_eq!(unsafe { r.assume_init_read() }, 5);
+    drop(b);
+    drop(a);
+}
